@@ -93,6 +93,41 @@ def stop_while_reading(engine, n):
     return out
 
 
+def stop_right_after_read(engine, n):
+    """the stop request races a batch that the source has just handed over (no pause between the two, in either order, with
+    0 / 1 / 2 ms between them): whichever wins, the batch is either part of the run and drained completely, or not part of it at all"""
+    out = []
+    for i in range(n):
+        kind = "StopAndWait" if i % 2 == 0 else "Stop"
+        gap = [{"do": "Sleep", "ms": (i // 4) % 3}] if (i // 4) % 3 else []
+        race = [{"do": "Emit", "src": "s1"}] + gap + [{"do": kind, "n": 1}] if i % 4 < 2 else [{"do": kind, "n": 1}] + gap + [{"do": "Emit", "src": "s1"}]
+        sc = dpgen.scenario("%s-g-stoprace-%03d" % (engine, i), engine, [S("s1", 4, [1, 1, 1, 1])], [D("d1", gated=False)],
+                            steps=[{"do": "Emit", "src": "s1"}, {"do": "Settle"}] + race + [{"do": "Settle"}])
+        if kind == "Stop" or i % 4 >= 2:
+            sc["final"] = "stopwait"
+        sc["features"] = sorted(set(dpgen.features_of(sc)) | {"healthy", "graceful", "stop-right-after-read"})
+        out.append(sc)
+    return out
+
+
+def stop_between_read_and_lock(n):
+    """v2: the stop request lands exactly between "the source handed over a batch" and "the worker holds the processing
+    lock" (scheduling point funnel.batch-read): the stop wins, the source is torn down - the batch in the worker's hand is
+    then not part of the run: nothing of it is written, acknowledged or counted, and the stop ends cleanly"""
+    out = []
+    for i in range(n):
+        kind = "StopAndWait" if i % 2 == 0 else "Stop"
+        nth = 2 + i % 2
+        sc = dpgen.scenario("v2-g-stoplock-%03d" % i, "v2", [S("s1", 4, [1, 1, 1, 1])], [D("d1", gated=False)],
+                            steps=[{"do": "OnHook", "tag": "funnel.batch-read", "n": nth,
+                                    "steps": [{"do": kind, "n": 1}, {"do": "Sleep", "ms": 150}]}] +
+                                  [{"do": "Emit", "src": "s1"}, {"do": "Settle"}] * nth + [{"do": "Settle"}])
+        sc["final"] = "stopwait"
+        sc["features"] = sorted(set(dpgen.features_of(sc)) | {"healthy", "graceful", "stop-between-read-and-lock"})
+        out.append(sc)
+    return out
+
+
 def random_healthy(rng, engine, n):
     out = []
     for i in range(n):
@@ -144,6 +179,8 @@ def run(tier, seed):
             scs += stop_everywhere(b)
     chk.run(scs, name="stop-everywhere")
     chk.run(stop_while_reading("v1", 8 if quick else 60) + stop_while_reading("v2", 8 if quick else 60), name="stop-while-reading")
+    chk.run(stop_right_after_read("v1", 24 if quick else 240) + stop_right_after_read("v2", 24 if quick else 240), name="stop-right-after-read")
+    chk.run(stop_between_read_and_lock(6 if quick else 24), name="stop-between-read-and-lock")
     n = 60 if quick else 2000
     chk.run(random_healthy(rng, "v1", n) + random_healthy(rng, "v2", n), name="healthy-random")
     chk.validate()
